@@ -213,6 +213,8 @@ func checkMapLoop(p *Prog, own *Own, l *mapLoop) (shapes, problems []string) {
 		}
 		if okPhi {
 			shapes = append(shapes, "S3 flag: loop-carried variable only ever receives one constant")
+		} else if collectsKeysThenSorts(l, phi) {
+			shapes = append(shapes, "S5 the keys are collected into a slice that is sorted before anything reads it")
 		} else {
 			problems = append(problems, fmt.Sprintf("loop-carried variable %s accumulates across iterations", describeValue(p, phi)))
 		}
@@ -724,4 +726,119 @@ func keyedHelper(callee *ssa.Function, j int) (int, bool) {
 		return 0, false
 	}
 	return kidx, true
+}
+
+// collectsKeysThenSorts: the loop only does names = append(names, key), and after the loop names is handed to
+// sort.Strings / slices.Sort before any other use: the order in which the map was visited is erased.
+func collectsKeysThenSorts(l *mapLoop, phi *ssa.Phi) bool {
+	// inside the loop: the phi is used only by the append that feeds it back
+	var app *ssa.Call
+	var backEdges []ssa.Value
+	var flatten func(v ssa.Value, depth int) bool
+	flatten = func(v ssa.Value, depth int) bool {
+		if v == ssa.Value(phi) {
+			return true // an iteration that adds nothing (a filtered key)
+		}
+		if inner, ok := v.(*ssa.Phi); ok && depth < 4 && l.body[inner.Block()] {
+			for _, e := range inner.Edges {
+				if !flatten(e, depth+1) {
+					return false
+				}
+			}
+			return true
+		}
+		backEdges = append(backEdges, v)
+		return true
+	}
+	for i, e := range phi.Edges {
+		if !l.body[l.header.Preds[i]] {
+			continue
+		}
+		if !flatten(e, 0) {
+			return false
+		}
+	}
+	for _, e := range backEdges {
+		c, ok := e.(*ssa.Call)
+		if !ok {
+			return false
+		}
+		bi, ok := c.Common().Value.(*ssa.Builtin)
+		if !ok || bi.Name() != "append" || c.Common().Args[0] != ssa.Value(phi) {
+			return false
+		}
+		// appended: a one-element literal holding the range key
+		sl, ok := c.Common().Args[1].(*ssa.Slice)
+		if !ok {
+			return false
+		}
+		al, ok := sl.X.(*ssa.Alloc)
+		if !ok {
+			return false
+		}
+		elems := literalElems(al)
+		if len(elems) != 1 || l.key == nil || elems[0] != l.key {
+			return false
+		}
+		if app != nil && app != c {
+			return false
+		}
+		app = c
+	}
+	if app == nil {
+		return false
+	}
+	var sortCall ssa.Instruction
+	var others []ssa.Instruction
+	for _, ref := range *phi.Referrers() {
+		if ref == ssa.Instruction(app) {
+			continue
+		}
+		if _, isDbg := ref.(*ssa.DebugRef); isDbg {
+			continue
+		}
+		if l.body[ref.Block()] {
+			if _, isPhi := ref.(*ssa.Phi); isPhi {
+				continue // merge of "added" and "skipped" inside the iteration
+			}
+			return false // read inside the loop
+		}
+		if c, ok := ref.(*ssa.Call); ok {
+			if sc := c.Common().StaticCallee(); sc != nil {
+				o := sc.Origin()
+				if o == nil {
+					o = sc
+				}
+				name := ""
+				if o.Pkg != nil {
+					name = o.Pkg.Pkg.Path() + "." + o.Name()
+				}
+				if name == "sort.Strings" || name == "slices.Sort" || name == "sort.Ints" {
+					if sortCall != nil {
+						return false
+					}
+					sortCall = c
+					continue
+				}
+			}
+		}
+		others = append(others, ref)
+	}
+	// the append result may also be used after the loop through the phi only (SSA): fine
+	if sortCall == nil {
+		return false
+	}
+	for _, o := range others {
+		sb, ob := sortCall.Block(), o.Block()
+		if sb == ob {
+			if instrIndex(sortCall) > instrIndex(o) {
+				return false
+			}
+			continue
+		}
+		if !sb.Dominates(ob) {
+			return false
+		}
+	}
+	return true
 }
